@@ -23,4 +23,19 @@ CHECKS = {
             "note": "Trusted: value projection (maps sorted by key), TLC.",
             "technique": TV},
 }
+CHECKS.update({
+    "C07": {"text": "Every macro x lists of length 0..4 x body shapes (hit / failure at each position, outer variable, stored program, nested macro re-using the variable name, unbound name, recording function) "
+                    "is executed (bound and literal forms) and TLC checks outcome and call log against the defining folds of Eval.tla (early exit, failure propagation, lexical loop variable, caller's bindings unchanged); "
+                    "exists_one for every pair of hit positions; maps built four ways must iterate identically; random lists up to 64 elements.",
+            "note": "Trusted: value projection, recording functions, TLC. Which fixed order maps use is not stated by the property: only its uniqueness is checked.",
+            "technique": TV},
+    "C08": {"text": "Field paths of depth 0..4 (by .f and ['f']) x binding configurations (root unbound, intermediate missing / not a map / null, leaf missing / null / present) x 15 contexts (top level, macro body, nested has/coalesce, call argument, failing arithmetic on the path) "
+                    "and every coalesce argument list of length 0..5 over {present, null, absent, failing} as recording calls are validated by TLC against Eval.tla's Has/Coalesce (class absent vs other; call log).",
+            "note": "Trusted: the harness' classification of CelError::Binding/Attribute as 'absent' and everything else as 'other'.",
+            "technique": TV},
+    "C09": {"text": "Generated expressions over <= 4 variables are compiled once per subset of variables replaced by literals of their bound values (2^k programs per case) and every one must produce an outcome the specification allows for the original "
+                    "(the specification evaluates the tree once: folding is invisible by construction); targeted programs cover each construct the compiler folds or pre-evaluates.",
+            "note": "Trusted: rendering of values as literals (checked by C13), TLC. Clock calls are covered by the bytecode check of C10 (NoFrozenClock) and a two-execution comparison.",
+            "technique": TV},
+})
 NOT_YET = {}
